@@ -194,6 +194,8 @@ tagspec(struct scope *s)
 		if (!et)
 			error(&tok.loc, "no type in enum type specifier");
 	}
+	if (!tag && tok.kind != TLBRACE)
+		error(&tok.loc, "expected identifier or '{' after struct/union/enum");
 	if (tag)
 		t = scopegettag(s, tag, tok.kind != TLBRACE && tok.kind != TSEMICOLON);
 	if (t) {
@@ -214,8 +216,12 @@ tagspec(struct scope *s)
 		if (tag)
 			scopeputtag(s, tag, t);
 	}
-	if (tok.kind != TLBRACE)
+	if (tok.kind != TLBRACE) {
+		/* without a fixed underlying type, an enum may only be named once its enumerator list is complete */
+		if (kind == TYPEENUM && t->incomplete && !t->base && tok.kind != TSEMICOLON)
+			error(&tok.loc, "enum '%s' is used before its definition is complete", tag);
 		return t;
+	}
 	if (!t->incomplete)
 		error(&tok.loc, "redefinition of tag '%s'", tag);
 	next();
